@@ -29,7 +29,9 @@ META = {
                   "1600, thorough 16000 programs x 8 argument tuples): independent DEX writer -> real DecompilerDAD -> javac 17 -> java, "
                   "compared with an independent Dalvik interpreter. No contract of this family expresses 'the emitted Java text "
                   "computes the same function' for whole methods, so layer 2 is a bounded stand-in and never counted as proved. "
-                  "Open known findings KF-C21-1..4 (programs listed in known_c21_seeds.json).",
+                  "Two further bounded units run hand-written programs: `scenarios` (11) and `hunted_programs` (the 25 programs of an "
+                  "independent defect hunt: int and long parameters, switches, nested loops, nop). Open known findings KF-C21-1..5 "
+                  "(programs listed in known_c21_seeds.json) and KF-C21-6..8 (programs of hunted_programs).",
     "trusted": ["Java expression semantics as transcribed in specs/javaexpr.py (JLS §15)", "Dalvik opcode semantics table in the same file",
                 "stub instruction objects exposing the register fields of formats 23x/12x/22s/22b",
                 "bounded layer: javac / java 17 of the image, specs/dalvikgen.py (generator + reference interpreter), specs/dexwriter.py"],
